@@ -11,6 +11,16 @@ import z3
 from .values import SBool, SInt, Unsupported
 
 
+RL_PER_MS = 7000
+
+
+def _budget(solver, ms):
+    """solver budgets are deterministic resource limits (z3 rlimit), not wall-clock timeouts, so
+    that verdicts do not flip when the machine is busy; the wall timeout is only a backstop"""
+    solver.set("rlimit", int(ms * RL_PER_MS))
+    solver.set("timeout", int(ms * 40))
+
+
 class PathEnd(Exception):
     """The current path is finished (infeasible, or deliberately cut after a
     loop-preservation check)."""
@@ -126,7 +136,7 @@ class Ctx:
             sym, sls, done = entry
             if done:
                 continue
-            self.solver.set("timeout", 300)
+            _budget(self.solver, 300)
             if self.solver.check() != z3.sat:
                 return
             v = self.solver.model().eval(z3.Int(sym), model_completion=True)
@@ -182,7 +192,7 @@ class Ctx:
 
     def check(self, extra=None, ms=None):
         t0 = time.time()
-        self.solver.set("timeout", ms or self.feas_ms)
+        _budget(self.solver, ms or self.feas_ms)
         if extra is not None:
             self.solver.push()
             self.solver.add(extra)
@@ -209,7 +219,7 @@ class Ctx:
             return True
         if z3.is_false(b):
             return False
-        self.light.set("timeout", ms or self.quick_ms)
+        _budget(self.light, ms or self.quick_ms)
         self.light.push()
         self.light.add(z3.Not(b))
         r = self.light.check()
@@ -262,7 +272,7 @@ class Ctx:
         if z3.is_int_value(t):
             return t.as_long()
         # light solver first (linear facts only: a sound under-approximation of the hypotheses)
-        self.light.set("timeout", self.feas_ms)
+        _budget(self.light, self.feas_ms)
         if self.light.check() == z3.sat:
             v = self.light.model().eval(t, model_completion=True)
             if z3.is_int_value(v):
@@ -272,7 +282,7 @@ class Ctx:
                 self.light.pop()
                 if r == z3.unsat:
                     return v.as_long()
-        self.solver.set("timeout", self.feas_ms)
+        _budget(self.solver, self.feas_ms)
         if self.solver.check() != z3.sat:
             return None
         v = self.solver.model().eval(t, model_completion=True)
